@@ -409,6 +409,9 @@ class Run:
         ob: dict[str, Any] = {"n": self.tickno, "t": self.now, "pre_state": self.state(), "pre_flags": self.flags()}
         if "tags" in self.observe:
             ob["pre_clocks"] = {k: self.tag(k) for k in ("Process Time", "Run Time", "Block Time", "Scope Time", "Block", "Base")}
+            for k in ("Accumulated Volume", "Block Volume"):
+                if self.engine.tags.has(k):
+                    ob["pre_clocks"][k] = self.tag(k)
         try:
             self.engine.tick(self.now, inc)
         except BaseException as ex:  # C13 monitor
